@@ -16,7 +16,7 @@ from sim.world import Run
 
 ID = "C36"
 LEVEL = "exploration"
-RUNS = {"quick": 50000, "thorough": 600000}
+RUNS = {"quick": 50000, "thorough": 3600000}
 BUDGET = {"quick": 100.0, "thorough": 3300.0}
 RULE = ("one run = 1-3 tasks with seeded options (restart_after_reconnect, wait_before_start, wait_for_connection, "
         "repeat_after, sync/async target with a duration) and a seeded op sequence (start/remove/stop/start registry, "
